@@ -29,25 +29,32 @@ def parse_head(buf):
 
 
 def read_chunked(buf):
-    """strict chunked decoding -> dict(sizes, body, nlast, rest, ok)"""
+    """strict chunked decoding -> dict(sizes, body, complete, rest, ok, junk)
+    ok False + junk 0: the stream simply ends early (truncated); junk > 0: bytes that are not chunk syntax"""
     sizes, body = [], bytearray()
     while True:
         j = buf.find(b"\r\n")
         if j < 0:
-            return {"sizes": sizes, "body": bytes(body), "complete": False, "rest": b"", "ok": False}
+            # no complete size line: plain truncation if what is there could still become one
+            bad = len(buf) if not re.match(rb"^[0-9A-Fa-f]*(;[^\r\n]*)?\r?$", buf) else 0
+            return {"sizes": sizes, "body": bytes(body), "complete": False, "rest": b"", "ok": False, "junk": bad}
         line = buf[:j]
         sz, _, ext = line.partition(b";")
         if not re.match(rb"^[0-9A-Fa-f]+$", sz):
-            return {"sizes": sizes, "body": bytes(body), "complete": False, "rest": buf, "ok": False}
+            return {"sizes": sizes, "body": bytes(body), "complete": False, "rest": buf, "ok": False, "junk": len(buf)}
         n = int(sz, 16)
         buf = buf[j + 2:]
         if n == 0:
             # trailer section: none expected from this server; then the final CRLF
             if buf[:2] != b"\r\n":
-                return {"sizes": sizes, "body": bytes(body), "complete": False, "rest": buf, "ok": False}
-            return {"sizes": sizes, "body": bytes(body), "complete": True, "rest": buf[2:], "ok": True}
-        if len(buf) < n + 2 or buf[n:n + 2] != b"\r\n":
-            return {"sizes": sizes, "body": bytes(body) + buf[:n], "complete": False, "rest": b"", "ok": False}
+                return {"sizes": sizes, "body": bytes(body), "complete": False, "rest": buf, "ok": False,
+                        "junk": len(buf) if len(buf) >= 2 else 0}
+            return {"sizes": sizes, "body": bytes(body), "complete": True, "rest": buf[2:], "ok": True, "junk": 0}
+        if len(buf) < n + 2:
+            return {"sizes": sizes, "body": bytes(body) + buf[:n], "complete": False, "rest": b"", "ok": False, "junk": 0}
+        if buf[n:n + 2] != b"\r\n":
+            return {"sizes": sizes, "body": bytes(body) + buf[:n], "complete": False, "rest": b"", "ok": False,
+                    "junk": len(buf) - n}
         sizes.append(n)
         body += buf[:n]
         buf = buf[n + 2:]
@@ -100,7 +107,7 @@ def read_responses(wire, closed, methods):
                 out.append(rec)
                 return out
             d = read_chunked(rest)
-            rec.update(mode="chunked", body=d["body"], complete=d["complete"], chunks=d["sizes"])
+            rec.update(mode="chunked", body=d["body"], complete=d["complete"], chunks=d["sizes"], junk=d["junk"])
             if not d["ok"] and not closed:
                 rec.update(wellformed=False, why="bad-chunked-stream")
             buf = d["rest"] if d["complete"] else b""
